@@ -61,6 +61,7 @@ func runC06(r *Report) {
 	r.Rule("C06/oneof-arms", "every discriminator value the schema maps (explicitly or by schema name) has a decoding arm, so every value the encoder can emit for a variant can be decoded back")
 	r.Rule("C06/keys-consumed", "every key a reader looks up is deleted from the shared raw map before any later additionalProperties collector (own or of an allOf member decoded afterwards from the same map) ranges over it")
 	r.Rule("C06/time-layout", "date-time properties are formatted and parsed with time.RFC3339Nano (lossless for every time.Time instant) unless x-goag-go-time-format names another layout; writer layout = reader layout")
+	r.Rule("C06/marshaler-receiver", "every MarshalJSON of the generated package has a value receiver (the encoders pass values; a pointer-receiver method is skipped for non-addressable ones)")
 	r.Rule("C06/codec-agreement", "writer key table = reader key table (key, field, required/optional, IsSet, null, embedded order, additionalProperties)")
 	r.Assumptions = append(r.Assumptions,
 		"NOT decided: equality of values after a round trip (number formatting, time zones, RawMessage normalisation, nil vs empty collections) and everything delegated to encoding/json",
@@ -260,6 +261,18 @@ func runC06(r *Report) {
 						ag = append(ag, fmt.Sprintf("key %q: a set nullable array holding a nil slice is written as null (no nil-slice normalisation), which the reader takes as the null state: the value decodes to unset", w.Key))
 					}
 				}
+				if base, _, _ := goBaseOf(w.Field.Type()); strings.HasPrefix(base, "int") || strings.HasPrefix(base, "uint") {
+					for _, dt := range rd.DecodeTargets {
+						if b, ok := dt.Underlying().(*types.Basic); ok && b.Info()&types.IsFloat != 0 {
+							ag = append(ag, fmt.Sprintf("key %q: the integer is decoded through a %s variable: values above 2^53 come back changed", w.Key, dt.String()))
+						}
+					}
+				}
+				for _, pr := range rd.Problems {
+					if strings.Contains(pr, "null test") {
+						ag = append(ag, pr)
+					}
+				}
 				if w.NullCapable != rd.NullTest {
 					ag = append(ag, fmt.Sprintf("key %q: writer can emit null=%v but reader accepts null as unset-nullable=%v", w.Key, w.NullCapable, rd.NullTest))
 				}
@@ -280,6 +293,7 @@ func runC06(r *Report) {
 		}
 	}
 	for _, jp := range progs {
+		marshalerReceivers(r, s3, jp.P, "C06/marshaler-receiver")
 		w := &shapeWalker{r: r, s3: s3, jp: jp, mode: "C06", seen: map[string]bool{}}
 		w.roots()
 	}
@@ -846,6 +860,7 @@ func runC07(r *Report) {
 	r.Explanation = "For every schema position reachable from the operations of every instantiated program (response bodies, request bodies, component schemas, nested properties, array items, allOf members) the Go type standing there is followed from the body site (response Write → writeJSON(w, r.Body); parser → Decode(&params.Body)) and its generated writer key table is compared with the schema of the independent oracle: exact key set (spelling from the spec, not from the Go field), required ⇔ written unconditionally, optional ⇔ written only under the Maybe guard, null-capable ⇔ nullable: true, Go base type admissible for (type, format), nil slice normalised to [] where the array is not nullable, allOf $ref members delegated into the SAME object (no nested braces) and inline members merged, additionalProperties ⇔ map entries written under their own keys. Table-level for all values; scalar value formats are encoding/json's."
 	r.Rule("C07/shape", "writer key table and Go types at every schema position equal the schema (keys, required/optional, nullable, base types, allOf merge, additionalProperties)")
 	r.Rule("C07/write-json", "the JSON body helper func(io.Writer, any, string) is exactly json.NewEncoder(w).Encode(v) (+ error logging): one document per response, nothing buffered or shared")
+	r.Rule("C07/marshaler-receiver", "every MarshalJSON of the generated package has a value receiver")
 	r.Rule("C07/body-sites", "every documented JSON response body is written with writeJSON(w, r.Body) and every JSON request body is decoded into params.Body; the types at those sites are the ones judged")
 	r.Assumptions = append(r.Assumptions, "formats of scalar VALUES (float/time rendering) and which oneOf variant a value validates against are not decided", "a required non-nullable `any`/ref field can still encode null when its Go value is a nil RawMessage/map — a value-level fact outside the table", "programs bounded by the corpus")
 	s3, progs := loadJSONPrograms(r, "C07")
@@ -879,6 +894,7 @@ func runC07(r *Report) {
 				}
 			}
 		}
+		marshalerReceivers(r, s3, jp.P, "C07/marshaler-receiver")
 		w := &shapeWalker{r: r, s3: s3, jp: jp, mode: "C07", seen: map[string]bool{}}
 		nBodies += w.roots()
 		nPos += w.nPos
@@ -985,4 +1001,25 @@ func delegateTarget(p *Program, n *types.Named) *types.Named {
 		return target
 	}
 	return nil
+}
+
+// marshalerReceivers: every MarshalJSON declared in the generated package must have a value receiver —
+// the generated encoders hand VALUES to encoding/json (boxed in `any`, as map values, as slice elements),
+// and a pointer-receiver method is not in the method set of such a non-addressable value: the wrapper
+// would be encoded as a plain struct ({"IsSet":true,"Value":…}) that the decoder cannot read back.
+func marshalerReceivers(r *Report, s3 *S3, p *Program, rule string) {
+	for _, f := range p.Pkg.Syntax {
+		for _, d := range f.Decls {
+			fd, ok := d.(*ast.FuncDecl)
+			if !ok || fd.Recv == nil || fd.Name.Name != "MarshalJSON" || len(fd.Recv.List) != 1 {
+				continue
+			}
+			key := p.Name + ":" + recvTypeName(fd) + ".MarshalJSON"
+			if _, isPtr := fd.Recv.List[0].Type.(*ast.StarExpr); isPtr {
+				r.Violation(rule, key, s3.pos(fd.Pos()), "MarshalJSON has a pointer receiver: values of "+recvTypeName(fd)+" that are not addressable (map values, values boxed in `any`) are encoded with encoding/json's default struct coding")
+			} else {
+				r.OK(rule, key, s3.pos(fd.Pos()), "value receiver")
+			}
+		}
+	}
 }
